@@ -24,7 +24,8 @@ PROFILE = scenario.profile(
     cons_x0=("margin",), p_warm=0.1,
     # stobads=True keeps the default policy for deterministic targets (the code switches it off once the target is
     # found to be deterministic), so it is inside the statement's domain
-    extra_opts=(("stobads", (True,), 0.15), ("noise_size", (0.5, 1.0), 0.15)),
+    # tol_noise = 0: "any difference at all between the two evaluations at x0 means noise" - a deterministic target has none
+    extra_opts=(("stobads", (True,), 0.15), ("noise_size", (0.5, 1.0), 0.15), ("tol_noise", (0.0,), 0.1)),
 )
 PROFILE_T = dict(PROFILE, maxD=6, extra_budget=(0, 250))
 N = {"quick": 320, "thorough": 5000}
